@@ -12,7 +12,8 @@ EXPLANATION = (
     "cycle breaker, so boxes come only from cycle cutting; (W2) every ingestion function that registers references runs the "
     "cycle breaker over the whole batch range after conversion and before finalisation on the path to Ok; (W3) the DFS "
     "bookkeeping is paired: the snip test is membership in the active set, nodes are added to the active set when pushed and "
-    "removed when popped, replaced children are the snipped ones."
+    "removed when popped, replaced children are the snipped ones; "
+    "the children that are boxed are exactly the partition's true side (resolved by binding, so a shadowing filter is seen)."
 )
 ASSUMPTIONS = ["external generic natives hold their parameters behind indirection or are otherwise sized (opaque to the analysis)"]
 
